@@ -124,7 +124,9 @@ func runC06(c c06Case, r *rep.Report) (key, msg string, stats map[string]int64) 
 				if s.EIO == "4" {
 					rev = 4
 				}
-				cfg := rig.ClientCfg{Rev: rev, Transport: s.Transport, B64: s.B64, JSONP: s.JSONP, J: "1", NoAutoPong: true}
+				// every other b64 session declares the flag on its handshake request only: the payload
+				// format of a session is fixed when it is created
+				cfg := rig.ClientCfg{Rev: rev, Transport: s.Transport, B64: s.B64, B64OnlyAtHandshake: s.B64 && si%2 == 1, JSONP: s.JSONP, J: "1", NoAutoPong: true}
 				if s.EIO == "" {
 					cfg.OmitEIO = true
 				}
